@@ -176,6 +176,16 @@ def key_of(p):
     return re.sub(r"(var|param):\w+", r"\1:*", p)
 
 
+def shape_of(desc):
+    """Operator skeleton of a sink description: operands that are plain values are wildcarded, so that renaming,
+    re-binding or re-deriving an operand does not make the site look new, while a new operation does."""
+    d = key_of(desc)
+    d = re.sub(r"\[\(.*$", "", d) if d.startswith("Panic:") else d      # assertion text: kind only
+    d = re.sub(r"const:[\w:]+", "const", d)
+    d = re.sub(r"(var|param):\*(\.\w+)*", "v", d)
+    return d[:160]
+
+
 class Classifier:
     def __init__(self, ctx):
         self.ctx = ctx
@@ -239,6 +249,11 @@ class Classifier:
                                 yb = MEM
                             if yb is not None and yb + cb < lim:
                                 auto = ("interval", "operand is below %s on every path (dominating comparison), so the sum stays below 2^%d" % (y[:40], lim.bit_length() - 1))
+            if auto is None and op == "Add" and ops[1] == "const:1":
+                # x + 1 where x is strictly below some value of its own type: the successor exists
+                for (rop, x, y) in rels:
+                    if rop == "Lt" and x == ops[0]:
+                        auto = ("guarded", "x < %s dominates, so x + 1 does not exceed the type's maximum" % y[:40])
             if op == "Sub":
                 a, b = ops
                 for (rop, x, y) in rels:
@@ -623,6 +638,14 @@ def sink(which):
                     res.fail(Finding(res.rule, key + "/unclassified", "panic-capable site %s is not discharged by any interval, guard, qualifier or audited entry (conditions on the path: %s)" % (desc[:160], "; ".join(a[:70] for a in atoms[:4]) or "none"), f, s["span"]))
                     continue
                 na = norm_atoms(atoms) + atoms
+                # an audited entry covers the sinks that were read when it was written, not whatever appears later
+                frozen = ctx.table("sink_keys").get("functions", {}).get(p)
+                skey = "%s|%s" % (s["kind"], shape_of(desc))
+                # (applied to function-wide entries only, and by sink kind: a finer key makes ordinary refactoring -
+                # a loop counter, a re-bound operand - look like a new site)
+                if frozen is not None and not e.get("kind") and not e.get("desc") and not any(k_.split("|")[0] == s["kind"] for k_ in frozen) and not e["class"].startswith("known-finding"):
+                    res.fail(Finding(res.rule, key + "/new-sink-under-old-audit", "panic-capable site %s is new in %s: the audited discharge for this function (%s) was written for other sites and does not cover it (conditions on the path: %s)" % (desc[:140], p.split("::")[-1], e["reason"][:100], "; ".join(a[:60] for a in atoms[:3]) or "none"), f, s["span"]))
+                    continue
                 miss = [rx for rx in e.get("require", []) if not atoms_match(rx, na)]
                 cls = e["class"]
                 reason = e["reason"]
